@@ -282,6 +282,10 @@ func init() {
 			s := c.NewSim(cfg, pol)
 			s.now = T0 + int64(r.Intn(100000))
 			sids := []string{"s0", "s1", "s2"}[:1+r.Intn(3)]
+			if r.Intn(4) == 0 {
+				// ids with characters that markup-aware template engines rewrite
+				sids = []string{"a&b", "u+v", "x<y>", `q"r'`}[:1+r.Intn(4)]
+			}
 			mk := func(id string) *t_api.Request {
 				var ptags map[string]string
 				switch r.Intn(5) {
